@@ -3,6 +3,7 @@ package ledgersim
 import (
 	"crypto/sha256"
 	"encoding/binary"
+	"fmt"
 	"sort"
 
 	"github.com/btcsuite/btcd/chaincfg/chainhash"
@@ -307,4 +308,31 @@ func (t *utx) hasDupParentIn(set map[chainhash.Hash]bool) bool {
 		}
 	}
 	return false
+}
+
+// describe renders the universe (replay aid).
+func (u *universe) describe() []string {
+	var out []string
+	for _, t := range u.txs {
+		s := fmt.Sprintf("universe tx%d %-9s %s in=[", t.idx, t.kind, t.hash.String()[:10])
+		for _, in := range t.msg.TxIn {
+			if pi, ok := u.byHash[in.PreviousOutPoint.Hash]; ok {
+				s += fmt.Sprintf("tx%d:%d ", pi, in.PreviousOutPoint.Index)
+			} else if t.coinbase {
+				s += "coinbase "
+			} else {
+				s += fmt.Sprintf("ext(%s:%d) ", in.PreviousOutPoint.Hash.String()[:6], in.PreviousOutPoint.Index)
+			}
+		}
+		s += "] out=["
+		for oi, o := range t.msg.TxOut {
+			if ch, ok := t.credits[uint32(oi)]; ok {
+				s += fmt.Sprintf("%d:credit(%d,change=%v) ", oi, o.Value, ch)
+			} else {
+				s += fmt.Sprintf("%d:foreign(%d) ", oi, o.Value)
+			}
+		}
+		out = append(out, s+"]")
+	}
+	return out
 }
